@@ -899,8 +899,8 @@ func interleaved(c ICase) *ev.Verdict {
 	}
 	select {
 	case <-done:
-	case <-time.After(10 * time.Second):
-		return ev.V(c.Container+":interleaved:mutation-never-returns", "%s by another goroutine during %s did not return within 10 s (keys %q)", c.Mut.Op, c.Iter, c.Keys)
+	case <-time.After(120 * time.Second):
+		return ev.V(c.Container+":interleaved:mutation-never-returns", "%s by another goroutine during %s did not return within 120 s (keys %q)", c.Mut.Op, c.Iter, c.Keys)
 	}
 	// the model after the mutation
 	switch c.Mut.Op {
